@@ -617,6 +617,14 @@ pub fn fuzz_one(def: &PropDef, part_name: &str, sc: &Scenario, known: &KnownFile
         failed: false,
     };
     let (unknown, ex) = acc.eval(part, sc, false);
+    // a mutated scenario that contains the trigger of a known finding (a second stream on a
+    // move-out queue; add_stream on a multi-handle parent raced by a sibling) can show any of its
+    // consequences: none of them is a new finding
+    let truthy = |f: &Finding, k: &str| f.facts.get(k) == Some(&serde_json::Value::Bool(true));
+    let unknown: Vec<Finding> = unknown
+        .into_iter()
+        .filter(|f| !truthy(f, "addstream_raced_by_sibling") && !truthy(f, "mpmc_second_stream"))
+        .collect();
     if unknown.is_empty() {
         return None;
     }
@@ -636,7 +644,9 @@ pub fn fuzz_sane(sc: &Scenario) -> bool {
     if sc.progs.is_empty() || sc.progs.len() > crate::rt::MAX_THREADS - 1 || sc.sched.bytes.len() > 8192 {
         return false;
     }
-    if sc.opts.max_steps > 400_000 || sc.opts.mem {
+    // sequential (model-compared) histories are not mutated: an inserted blocking call would block
+    // a single-threaded caller for ever by specification
+    if sc.opts.max_steps > 400_000 || sc.opts.mem || sc.opts.model {
         return false;
     }
     for p in &sc.progs {
